@@ -30,10 +30,10 @@ META = {
  "C20": dict(technique="TLA+ spec of TALK request objects (Talk.tla) model-checked exhaustively (OnceInv, ExactInv, HeldSilent); every order of respond/drop/hold/shutdown up to 3 concurrent requests, goal and simulation behaviours replayed on the real service; responses judged by TLC (C20.* monitor formulas) and compared step by step with the specification (strict)",
    text="All interleavings of deliver / respond / drop / shutdown for 3 requests on the specification; on the code the same behaviours plus longer simulated ones; after shutdown the harness closes the transport end as the real handler does, so respond must return an error value and drop must be silent (a panic is reported).",
    note=_S_NOTE),
- "C09": dict(technique="TLA+ transcription of FindNodeQuery/PredicateQuery (Query.tla) model-checked with TLC incl. the liveness formula; TLC goal/simulation behaviours and a random driver executed on the real state machines; traces validated by TLC (strict conformance of every peer state + monitor formulas C09.ContactTwice / Parallelism / NotTerminated)",
-   text="All event orders (success, failure, silence, late success, any returned peer sets) for 4 peers exhaustively on the specification with CapInv, NwInv, ContactOnce and termination; on the code thousands of generated and random call sequences with up to 24 peers, each drained to completion.",
+ "C09": dict(technique="TLA+ transcription of FindNodeQuery/PredicateQuery (Query.tla) model-checked with TLC incl. the liveness formula; TLC goal/simulation behaviours and a random driver executed on the real state machines; traces validated by TLC (strict conformance of every peer state + monitor formulas C09.ContactTwice / Parallelism); TLC-generated schedules for the lookups of the real service with a scripted handler (MC_Lookup), judged by the service-level formulas C09.CallbackTwice / NoCallback / ResultLost / SamePeerTwice / InFlight",
+   text="All event orders (success, failure, silence, late success, any returned peer sets) for 4 peers exhaustively on the specification with CapInv, NwInv, ContactOnce and termination; on the code thousands of generated and random call sequences with up to 24 peers, each drained to completion or cut off; at the service, schedules of answers by a second real node, empty answers, failures, per-peer and query time-outs (virtual time) with the callback observed through Discv5::find_node / find_node_predicate.",
    note=_Q_NOTE),
- "C10": dict(technique="same Query.tla specification; result formulas (ordered, bounded, answered, predicate, complete) model-checked at every finished state and evaluated by TLC on into_result() of the real state machines",
+ "C10": dict(technique="same Query.tla specification; result formulas (ordered, bounded, answered, predicate, complete) model-checked at every finished state and evaluated by TLC on into_result() of the real state machines and on the callback value of Discv5::find_node / find_node_predicate (service with scripted handler)",
    text="Exhaustive on the specification for 4 peers; on the code for every generated/random behaviour the final result is judged by TLC against the observed history of reports.",
    note=_Q_NOTE),
  "C01": dict(technique=_H_TECH + "the monitor formulas C01.Attribution / C01.KeyDisclosed over attributed observations",
